@@ -22,10 +22,38 @@ Theorem C05_ref_inv : forall (D R : Type) (refs : D -> list Z) (Dinv : D -> Prop
 Proof. exact ref_inv. Qed.
 Print Assumptions C05_ref_inv.
 
-Theorem C05_no_partial_read : forall (D R : Type) (refs : D -> list Z) (Dinv : D -> Prop) (c : config D R) i f h m,
-  Inv refs Dinv c -> c_pc (cl c i) = ReadOpen f h m -> files c f = FDone \/ files c f = FNone.
+(* a lookup that is about to open the file named by the row it selected finds it complete, or gone (never partial) *)
+Theorem C05_no_partial_read : forall (D R : Type) (refs : D -> list Z) (Dinv : D -> Prop) (c : config D R) i r mo f h m,
+  Inv refs Dinv c -> c_pc (cl c i) = ReadOpen r mo f h m -> files c f = FDone \/ files c f = FNone.
 Proof. exact no_partial_read. Qed.
 Print Assumptions C05_no_partial_read.
+
+(* ... and when it is gone (the value was replaced or removed between the SELECT and the open) the lookup does not
+   report a miss: it looks the row up again (r_again = true: the code as it is, Gen_Sql.get_retries_after_missing_file).
+   The exit "the same file is missing twice" is not taken in any reachable configuration. *)
+Theorem C05_lookup_looks_again : forall (D R : Type) (refs : D -> list Z) (Dinv : D -> Prop) (c : config D R) i r mo f h m,
+  Inv refs Dinv c -> c_pc (cl c i) = ReadOpen r mo f h m -> r_again r = true -> files c f <> FDone ->
+  exists c', cstep c i = Some c' /\ c_pc (cl c' i) = ReadAgain r f /\ db c' = db c /\ lock c' = lock c /\
+             c_done (cl c' i) = c_done (cl c i).
+Proof. exact lookup_looks_again. Qed.
+Print Assumptions C05_lookup_looks_again.
+
+(* every answer of a lookup is justified at the step that produces it: it is what a SELECT on the CURRENT committed
+   state yields (a miss only when that state has no row for the key), or the value of a complete file named by the
+   row the lookup selected: there is no tolerated miss any more *)
+Theorem C05_lookup_answer_justified : forall (D R : Type) (refs : D -> list Z) (Dinv : D -> Prop) (c : config D R) i r c' o,
+  Inv refs Dinv c -> reading c i r -> r_again r = true -> cstep c i = Some c' -> c_done (cl c' i) = c_done (cl c i) ++ [o] ->
+  (exists res, o = ORes res /\ (r_select r (db c) = SelMiss res \/ r_select r (db c) = SelHit res)) \/
+  (exists mo f h m, c_pc (cl c i) = ReadOpen r mo f h m /\ files c f = FDone /\ o = ORes h).
+Proof. exact lookup_answer_justified. Qed.
+Print Assumptions C05_lookup_answer_justified.
+
+(* the reader the code had before the repair (r_again = false) reported the missing file as a miss *)
+Theorem C05_old_lookup_reports_missing_file : forall (D R : Type) (c : config D R) i r mo f h m,
+  c_pc (cl c i) = ReadOpen r mo f h m -> r_again r = false -> files c f <> FDone ->
+  exists c', cstep c i = Some c' /\ c_pc (cl c' i) = Idle /\ c_done (cl c' i) = c_done (cl c i) ++ [ORes m].
+Proof. exact old_lookup_reports_missing_file. Qed.
+Print Assumptions C05_old_lookup_reports_missing_file.
 
 Theorem C05_writers_serial : forall (D R : Type) (refs : D -> list Z) (Dinv : D -> Prop) (c : config D R) i w f o,
   Inv refs Dinv c -> c_pc (cl c i) = AtCommit w f o -> bo_ok o = true ->
